@@ -313,6 +313,48 @@ class StateWorld(Run):
         self.stats["diagonalize"] += 1
         return self._digest(name)
 
+    def _p_relayout(self, rng):
+        """storage fault: the same tableau values in a non-canonical memory layout (Fortran
+        order, strided row / column views of larger buffers), built through the public
+        constructor.  The value of the state is unchanged; every later operation must behave
+        as on the canonical layout."""
+        if "view_operand" not in self.cfg["faults"]:
+            return None
+        return {"op": "relayout", "slot": self._pick(rng), "how": rng.choice(["F", "colview", "rowview", "psview", "all"])}
+
+    def _a_relayout(self, op):
+        name, st = self._state(op)
+        n = self.n
+        if self.S.name != "numpy":
+            raise Skip()
+        gs = np.array(st.gs, dtype=np.int_).copy()
+        ps = np.array(st.ps, dtype=np.int_).copy()
+        r = int(st.r)
+        how = op["how"]
+        if how in ("F", "all"):
+            gs = np.asfortranarray(gs)
+        if how == "colview":
+            big = np.zeros((2 * n, 4 * n), dtype=np.int_)
+            big[:, ::2] = gs
+            gs = big[:, ::2]
+        if how == "rowview":
+            big = np.zeros((4 * n, 2 * n), dtype=np.int_)
+            big[::2] = gs
+            gs = big[::2]
+        if how in ("psview", "all"):
+            pb = np.zeros(4 * n, dtype=np.int_)
+            pb[::2] = ps
+            ps = pb[::2]
+        try:
+            new = self.pc.StabilizerState(gs=gs, ps=ps, r=r)
+        except Exception as e:
+            self.stats["env_error:relayout:%s" % type(e).__name__] += 1
+            return "env_error"
+        self.slots[name] = new
+        self.stats["storage_layout"] += 1
+        self._resync(name, "relayout")
+        return how
+
     def _p_setr(self, rng):
         # set_r on a full tableau: any r in [0,N] is legal for a valid tableau
         return {"op": "setr", "slot": self._pick(rng), "r": rng.randrange(0, self.n + 1),
